@@ -279,6 +279,13 @@ func (w *World) Do(m int, in In) []Act {
 	if in.Kind == "start" {
 		v.started = true
 	}
+	// --- a Commit must be the last action of a returned list (driver.execute returns at the first
+	// Commit and drops the rest; Lean: step_commit_last) ---
+	for i, a := range acts {
+		if a.Kind == "C" && i != len(acts)-1 {
+			w.violate("commit-is-not-the-last-action", fmt.Sprintf("machine %d returned %s with actions after the Commit (the driver would drop them)", m, out))
+		}
+	}
 	// --- oracle on the emitted actions ---
 	for _, a := range acts {
 		switch a.Kind {
